@@ -457,3 +457,26 @@ def walk_expanded(ld, e, depth=0, seen=None):
             if d and d[1] is not None and not (d[2] and d[2][0] == "arm"):
                 for m in walk_expanded(ld, d[1], depth + 1, seen):
                     yield m
+
+
+def with_callees(F, b, depth=2, same_file=False):
+    """b plus the crate functions (and closures) its HIR calls, to the given depth - for rules that look for a table or a test that a
+    maintainer may have moved into a private helper."""
+    out, seen, work = [], set(), [(b, 0)]
+    while work:
+        x, d = work.pop(0)
+        if x is None or x.path in seen or not x.hir:
+            continue
+        seen.add(x.path)
+        out.append(x)
+        if d >= depth:
+            continue
+        for n in walk(x.hir.get("value") or {}):
+            c = call_def(n) if n.get("k") in ("call", "mcall") else None
+            if c is None and n.get("k") == "path":
+                c = res_def(n)      # a function item passed as a value (`.and_then(token_to_binop)`)
+            if c and F.has(c) and c not in seen:
+                cb = F.body(c)
+                if cb is not None and cb.hir and (not same_file or cb.file == b.file):
+                    work.append((cb, d + 1))
+    return out
